@@ -206,6 +206,92 @@ fn roundtrip_obj<T: SerdeAPI + PartialEq>(name: &str, x: &T, fmt: &str, file: bo
     f
 }
 
+/// paths of the boolean leaves of a serialized tree (option flags); `state` / `history` blocks are results, not options
+fn bool_leaves(v: &Value, path: &mut Vec<String>, out: &mut Vec<(Vec<String>, bool)>) {
+    match v {
+        Value::Bool(b) => out.push((path.clone(), *b)),
+        Value::Object(m) => {
+            for (k, w) in m {
+                if k == "state" || k == "history" {
+                    continue;
+                }
+                path.push(k.clone());
+                bool_leaves(w, path, out);
+                path.pop();
+            }
+        }
+        Value::Array(a) => {
+            for (i, w) in a.iter().enumerate().take(8) {
+                path.push(i.to_string());
+                bool_leaves(w, path, out);
+                path.pop();
+            }
+        }
+        _ => {}
+    }
+}
+fn leaf_mut<'a>(v: &'a mut Value, path: &[String]) -> Option<&'a mut Value> {
+    let mut cur = v;
+    for k in path {
+        cur = match cur {
+            Value::Object(m) => m.get_mut(k)?,
+            Value::Array(a) => a.get_mut(k.parse::<usize>().ok()?)?,
+            _ => return None,
+        };
+    }
+    Some(cur)
+}
+
+/// Every single-flag variant of a catalogue object: each boolean option of the serialized object flipped in turn (the
+/// variant is built by loading the edited JSON, so it is an object the library itself accepts), saved and loaded in
+/// the format under test; every option flag of the variant must come back as it was written.
+pub fn flag_variants<T: SerdeAPI + PartialEq>(name: &str, x: &T, fmt: &str, file: bool, checks: &mut u64) -> Fails {
+    let mut f: Fails = vec![];
+    let tree = match serde_json::to_value(x) {
+        Ok(t) => t,
+        Err(_) => return f,
+    };
+    let mut leaves = vec![];
+    bool_leaves(&tree, &mut vec![], &mut leaves);
+    for (path, val) in leaves {
+        let mut t2 = tree.clone();
+        match leaf_mut(&mut t2, &path) {
+            Some(l) => *l = Value::Bool(!val),
+            None => continue,
+        }
+        let y = match guarded(|| T::from_json(&t2.to_string())) {
+            Ok(Ok(y)) => y,
+            _ => continue, // not an object the library accepts (or not expressible in JSON): not a variant
+        };
+        let before = match serde_json::to_value(&y) {
+            Ok(b) => b,
+            Err(_) => continue,
+        };
+        *checks += 1;
+        let class = cause_class(&y, fmt);
+        let r1 = match guarded(|| save_load(&y, fmt, file)) {
+            Ok(Ok(r)) => r,
+            Ok(Err((stage, e))) => {
+                f.push((fail_key(&stage, name, fmt, class), format!("{name} with {} = {}: {}", path.join("."), !val, e.chars().take(200).collect::<String>())));
+                continue;
+            }
+            Err(p) => {
+                f.push((format!("panic@{name}:{fmt}:{class}"), p.chars().take(200).collect()));
+                continue;
+            }
+        };
+        let after = serde_json::to_value(&r1).unwrap_or(Value::Null);
+        let (mut la, mut lb) = (vec![], vec![]);
+        bool_leaves(&before, &mut vec![], &mut la);
+        bool_leaves(&after, &mut vec![], &mut lb);
+        if la != lb {
+            let d = la.iter().zip(lb.iter()).find(|(a, b)| a != b).map(|(a, b)| format!("{} = {} came back as {} = {}", a.0.join("."), a.1, b.0.join("."), b.1)).unwrap_or_else(|| format!("{} flags written, {} read back", la.len(), lb.len()));
+            f.push((format!("option-flag-changed-by-round-trip@{name}:{fmt}"), format!("{name} with {} = {}: {d}", path.join("."), !val)));
+        }
+    }
+    f
+}
+
 // ---------------------------------------------------------------------------------- resumable simulations
 pub trait Resumable: SerdeAPI + PartialEq + Clone {
     fn step_once(&mut self) -> Result<bool, String>; // Ok(false) = finished
@@ -378,7 +464,7 @@ pub fn subjects() -> Vec<&'static str> {
     vec![
         "FuelConverter", "FuelConverter:stepped", "Generator", "ElectricDrivetrain", "ReversibleEnergyStorage", "Locomotive:conv", "Locomotive:bel", "Locomotive:hybrid", "Locomotive:dummy", "Locomotive:conv:stepped", "Consist", "Consist:stepped", "PowerTrace", "SpeedTrace", "RailVehicle", "TrainConfig", "TrainSimBuilder",
         "LocomotiveSimulationVec:stepped", "SpeedLimitTrainSimVec", "Link", "SpeedSet", "Location", "TimedLinkPath", "LinkPath", "TrainRes", "BrakingPoints", "ReversibleEnergyStorage:stepped", "Locomotive:hybrid:stepped",
-        "TrainParams", "PathTpc:unfinished", "PathTpc:finished", "FricBrake", "Network", "EstTimeNet", "TimedPath", "SetSpeedTrainSim:default", "SpeedLimitTrainSim:valid", "LocomotiveSimulation:0", "LocomotiveSimulation:1", "LocomotiveSimulation:2", "LocomotiveSimulation:3", "LocomotiveSimulation:4", "ConsistSimulation:0", "ConsistSimulation:1", "ConsistSimulation:2", "ConsistSimulation:3", "ConsistSimulation:4", "ConsistSimulation:5", "Consist:own-intervals", "SetSpeedTrainSim:0",
+        "TrainParams", "PathTpc:unfinished", "PathTpc:finished", "FricBrake", "Network", "EstTimeNet", "TimedPath", "SetSpeedTrainSim:default", "SpeedLimitTrainSim:valid", "LocomotiveSimulation:0", "LocomotiveSimulation:1", "LocomotiveSimulation:2", "LocomotiveSimulation:3", "LocomotiveSimulation:4", "LocomotiveSimulation:5", "ConsistSimulation:0", "ConsistSimulation:1", "ConsistSimulation:2", "ConsistSimulation:3", "ConsistSimulation:4", "ConsistSimulation:5", "Consist:own-intervals", "SetSpeedTrainSim:0",
         "SetSpeedTrainSim:1", "SetSpeedTrainSim:2", "SpeedLimitTrainSim:0", "SpeedLimitTrainSim:1", "SpeedLimitTrainSim:2",
     ]
 }
@@ -398,7 +484,9 @@ pub fn run_case(c: &Case, n_steps: usize, checks: &mut u64) -> (Fails, u64) {
     macro_rules! obj {
         ($v:expr) => {{
             let v = $v;
-            (roundtrip_obj(&c.subject, &v, fmt, file, checks), 0)
+            let mut f = roundtrip_obj(&c.subject, &v, fmt, file, checks);
+            f.extend(flag_variants(&c.subject, &v, fmt, file, checks));
+            (f, 0)
         }};
     }
     match c.subject.as_str() {
@@ -503,10 +591,28 @@ pub fn run_case(c: &Case, n_steps: usize, checks: &mut u64) -> (Fails, u64) {
                     }
                     h
                 }
+                5 => {
+                    // limit checking switched off (public option) and a demand that outruns the engine's ramp: the
+                    // run only completes while the option survives the checkpoint
+                    let mut l = Locomotive::default();
+                    l.assert_limits = false;
+                    l
+                }
                 _ => Locomotive::default(),
             };
-            let root = LocomotiveSimulation::new(loco, power_trace(n_steps, if shape >= 3 { shape - 3 } else { shape }), Some(1));
-            resume_check(&c.subject, &root, c.checkpoint, fmt, file, checks)
+            let trace = if shape == 5 {
+                let time: Vec<f64> = (0..=n_steps).map(|x| x as f64).collect();
+                let pwr: Vec<f64> = (0..=n_steps).map(|i| if i == 0 { 0.0 } else if i % 4 == 3 { 4.0e5 } else { 2.0e6 }).collect();
+                PowerTrace::new(time, pwr, vec![Some(true); n_steps + 1])
+            } else {
+                power_trace(n_steps, if shape >= 3 { shape - 3 } else { shape })
+            };
+            let root = LocomotiveSimulation::new(loco, trace, Some(1));
+            let (mut f, st) = resume_check(&c.subject, &root, c.checkpoint, fmt, file, checks);
+            if c.checkpoint == 0 {
+                f.extend(flag_variants(&c.subject, &root, fmt, file, checks));
+            }
+            (f, st)
         }
         s if s.starts_with("ConsistSimulation:") => {
             // shapes 3 / 4: consists with a hybrid unit (hybrid+conv RESGreedy, hybrid+BEL+conv Proportional)
@@ -524,11 +630,19 @@ pub fn run_case(c: &Case, n_steps: usize, checks: &mut u64) -> (Fails, u64) {
                 root.loco_con.loco_vec[0].set_save_interval(None);
                 root.loco_con.loco_vec[2].set_save_interval(Some(4));
             }
-            resume_check(&c.subject, &root, c.checkpoint, fmt, file, checks)
+            let (mut f, st) = resume_check(&c.subject, &root, c.checkpoint, fmt, file, checks);
+            if c.checkpoint == 0 {
+                f.extend(flag_variants(&c.subject, &root, fmt, file, checks));
+            }
+            (f, st)
         }
         s if s.starts_with("SetSpeedTrainSim:") => {
             let root = ss_sim(n_steps, shape);
-            resume_check(&c.subject, &root, c.checkpoint, fmt, file, checks)
+            let (mut f, st) = resume_check(&c.subject, &root, c.checkpoint, fmt, file, checks);
+            if c.checkpoint == 0 {
+                f.extend(flag_variants(&c.subject, &root, fmt, file, checks));
+            }
+            (f, st)
         }
         s if s.starts_with("SpeedLimitTrainSim:") => {
             let root = SlRun(sl_sim(shape));
